@@ -728,6 +728,38 @@ func culpritClass(s gschema.Schema, failing, passing []string) string {
 			}
 		}
 	}
+	if len(common) == 0 {
+		// second attempt on positions alone: the paths (array indices and map
+		// keys abstracted) present in every failing document and in no passing one
+		pathsOf := func(d string) map[string][]string {
+			out := map[string][]string{}
+			if v, err := parseJSON(d); err == nil {
+				a := map[string][]string{}
+				atoms(v, nil, a)
+				for _, path := range a {
+					out[leafTokenAt(s, s.Objs[0].T, path, "", 3)+"\x00"+strings.Join(abstractPath(s, path), "\x01")] = path
+				}
+			}
+			return out
+		}
+		for i, d := range failing {
+			pd := pathsOf(d)
+			if i == 0 {
+				common = pd
+				continue
+			}
+			for k := range common {
+				if _, ok := pd[k]; !ok {
+					delete(common, k)
+				}
+			}
+		}
+		for _, d := range passing {
+			for k := range pathsOf(d) {
+				delete(common, k)
+			}
+		}
+	}
 	set := map[string]bool{}
 	for _, path := range common {
 		set[leafTokenAt(s, s.Objs[0].T, path, "", 3)] = true
@@ -741,4 +773,39 @@ func culpritClass(s gschema.Schema, failing, passing []string) string {
 	}
 	sort.Strings(l)
 	return "leaves {" + strings.Join(l, ", ") + "}"
+}
+
+// abstractPath replaces array indices and map keys of a path by "*".
+func abstractPath(s gschema.Schema, path []string) []string {
+	out := make([]string, 0, len(path))
+	t := s.Objs[0].T
+	budget := 3
+	for _, seg := range path {
+		if rt, nb, ok := resolve(s, t, budget); ok {
+			t, budget = rt, nb
+		}
+		switch t.K {
+		case "struct":
+			out = append(out, seg)
+			found := false
+			for i, f := range t.Fields {
+				if f.Name == seg {
+					t, found = t.Sub[i], true
+					break
+				}
+			}
+			if !found {
+				return append(out, "?")
+			}
+		case "array":
+			out = append(out, "*")
+			t = t.Sub[0]
+		case "map":
+			out = append(out, "*")
+			t = t.Sub[1]
+		default:
+			out = append(out, "*")
+		}
+	}
+	return out
 }
